@@ -71,9 +71,6 @@ def oracle(req, impl, build):
     if len(parts) != 6:
         return None if impl == "panic" else "malformed result"
     j1, o1, o2, o3, j2, j3 = parts
-    ms = __import__("re").search(r" state=([\d,]+)", req)
-    if ms and req.startswith("serde gen=xoshiro") and "before= " in req and ms.group(1) not in j1.replace(" ", ""):
-        return "the serialised text %s does not carry the generator's state %s" % (j1[:120], ms.group(1))
     if o2 != o3:
         return "restored generator diverges from the original under the same continuation"
     if j2 != j3:
